@@ -348,7 +348,7 @@ func judge(r *report.Run, tg *target, in inp, res result) {
 		return
 	}
 	if res.Alloc > bud {
-		viol("alloc", fmt.Sprintf("allocated %d bytes for an input of %d bytes (budget 64*len + 8 MiB + %d = %d) at %s", res.Alloc, len(in.Data), res.Extra, bud, res.Site))
+		viol("alloc", fmt.Sprintf("allocated %d bytes for an input of %d bytes (budget 1024*len + 8 MiB + %d = %d) at %s", res.Alloc, len(in.Data), res.Extra, bud, res.Site))
 		return
 	}
 	if strings.Contains(res.Info, "harness-error") {
